@@ -11,19 +11,47 @@ def scripted {β : Type} (tab : List β) (extra : β) (adj : Nat) (tags : List N
   let out := tags.filterMap fun t => tab[t]?
   if adj = 1 then out ++ [extra] else if adj = 2 then out.dropLast else out
 
+/-! Every family request names the calling form (`form=ref|own|dsref|dsown|inplace|into`) and is answered
+by `predictForm <family>Model form rows buf` — the very terms the `*_perSample` / `*_forms_are_batch`
+theorems of `Props/C03.lean` are about.  `pre=` (the caller's buffer) is present exactly for `form=into`. -/
+
+def parseForm : String → Option Form
+  | "ref" => some .refArray
+  | "own" => some .ownedArray
+  | "dsref" => some .refDataset
+  | "dsown" => some .ownedDataset
+  | "inplace" => some .inplace
+  | "into" => some .inplaceInto
+  | _ => none
+
+def formOf (toks : List String) : Option Form := do
+  let f ← (arg toks "form").bind parseForm
+  if (decide (f = .inplaceInto)) != (arg toks "pre").isSome then none else some f
+
+/-- `panic`, or `ok <targets>` followed by ` rec=same` / ` rec=changed` for the forms that hand the
+records back -/
+def showForm {R T : Type} (showR : List R → String) (showT : T → String) (rows : List R)
+    (o : FormOut R (Option T)) : String :=
+  match o.targets with
+  | none => "panic"
+  | some t =>
+    "ok " ++ showT t ++
+      (match o.records with
+       | none => ""
+       | some r => if showR r == showR rows then " rec=same" else " rec=changed")
+
+def showRowsF (rows : List (List Float)) : String := showList2 showF64c rows
+
 def handleMt (toks : List String) : Option String := do
   let tags ← argNats toks "tags"
   let tab ← argInts2 toks "tab"
   let adj ← argNats toks "adj"
   if tab.length ≠ adj.length then none
   let members := (tab.zip adj).map fun (t, a) => scripted t (-1 : Int) a
-  -- `pre=` present: `predict_inplace` into that caller-supplied buffer; absent: the `Predict` form
-  let res ← match arg toks "pre" with
-    | none => some (multiTargetBatch members tags)
-    | some _ => (argInts2 toks "pre").map fun pre => multiTargetInplace members tags pre
-  match res with
-  | none => some "panic"
-  | some out => some ("ok " ++ showList2 toString out)
+  let form ← formOf toks
+  let pre ← if form = .inplaceInto then argInts2 toks "pre" else some []
+  some (showForm (showList toString) (showList2 toString) tags
+    (predictForm (multiTargetModel members (0 : Int)) form tags pre))
 
 /-- labels of the members whose probability for tag `t` is maximal -/
 def tiedLabels (labels : List Nat) (tab : List (List Nat)) (t : Nat) : List Nat :=
@@ -55,13 +83,10 @@ def handleMc (toks : List String) : Option String := do
   if tab.length ≠ adj.length ∨ tab.length ≠ labels.length then none
   let members := (labels.zip (tab.zip adj)).map fun (l, t, a) =>
     (l, fun tags => (scripted t 0 a tags).map fun q => Float.ofNat q / 64)
-  match arg toks "pre" with
-  | none => some ("ok " ++ showMc labels tab adj tags (multiClassBatch members tags 0))
-  | some _ =>
-    let pre ← argNats toks "pre"
-    match multiClassInplace members tags pre with
-    | none => some "panic"
-    | some out => some ("ok " ++ showMc labels tab adj tags out)
+  let form ← formOf toks
+  let pre ← if form = .inplaceInto then argNats toks "pre" else some []
+  some (showForm (showList toString) (showMc labels tab adj tags) tags
+    (predictForm (multiClassModel members 0) form tags pre))
 
 def showPr (p : Float32) : String := "~" ++ showF64 p.toFloat
 
@@ -79,44 +104,49 @@ def handlePlatt32 (toks : List String) : Option String := do
   | none => some "panic"
   | some ps => some ("ok " ++ showList showPr ps)
 
+/-- the `Platt` wrapper itself (`Platt::predict_inplace` over a scripted inner model answering `xs[tag]`;
+row `i` carries tag `i`), through every calling form; `pre` = the caller's probability buffer -/
+def handlePlattW (toks : List String) : Option String := do
+  let a ← argF64 toks "a"; let b ← argF64 toks "b"; let xs ← argF64s toks "xs"
+  let form ← formOf toks
+  let pre ← if form = .inplaceInto then argF64s toks "pre" else some []
+  let rows := List.range xs.length
+  some (showForm (showList toString) (showList showPr) rows
+    (predictForm (plattModel (β := Float32) Float.toFloat32 (fun (rs : List Nat) => rs.filterMap (xs[·]?)) a b)
+      form rows (pre.map Float.toFloat32)))
+
+def tiedIdx (d : List Float) (best : Float) : List Nat :=
+  ((List.range d.length).zip d).filter (fun id => id.2 == best) |>.map (·.1)
+
 def handleKmeans (toks : List String) : Option String := do
   let cents ← argF64s2 toks "cents"; let rows ← argF64s2 toks "rows"
-  let res ← match arg toks "pre" with
-    | none => some (kmeansBatch cents rows)
-    | some _ => (argNats toks "pre").map fun pre => kmeansInplace cents rows pre
-  match res with
-  | none => some "panic"
-  | some l =>
+  let form ← formOf toks
+  let pre ← if form = .inplaceInto then argNats toks "pre" else some []
+  let cells := fun (l : List Nat) =>
     if l.length = rows.length then
-      some ("ok " ++ ",".intercalate ((rows.zip l).map fun (r, i) =>
+      ",".intercalate ((rows.zip l).map fun (r, i) =>
         let d := cents.map fun c => sqDist c r
         let dm := d.foldl (fun m x => if x < m then x else m) (1.0 / 0.0)
-        tieCell (((List.range d.length).zip d).filter (fun id => id.2 == dm) |>.map (·.1)) i))
-    else some ("ok " ++ showList toString l)
+        tieCell (tiedIdx d dm) i)
+    else showList toString l
+  some (showForm showRowsF cells rows (predictForm (kmeansModel cents) form rows pre))
 
 def showT (x : Float) : String := "~" ++ showF64c x
 
 def handleAffine (toks : List String) : Option String := do
   let w ← argF64s toks "w"; let b ← argF64 toks "b"; let rows ← argF64s2 toks "rows"
-  match arg toks "pre" with
-  | none => some ("ok " ++ showList showT (affineBatch rows w b))
-  | some _ =>
-    let pre ← argF64s toks "pre"
-    match affineInplace rows w b pre with
-    | none => some "panic"
-    | some out => some ("ok " ++ showList showT out)
+  let form ← formOf toks
+  let pre ← if form = .inplaceInto then argF64s toks "pre" else some []
+  some (showForm showRowsF (showList showT) rows (predictForm (affineModel w b) form rows pre))
 
 def handleLinmap (toks : List String) : Option String := do
   let mean ← argF64s toks "mean"; let std ← argF64s toks "std"
   let cols ← argF64s2 toks "cols"; let bias ← argF64s toks "bias"
   let rows ← argF64s2 toks "rows"
-  match arg toks "pre" with
-  | none => some ("ok " ++ showList2 showT (linMapBatch mean std cols bias rows))
-  | some _ =>
-    let pre ← argF64s2 toks "pre"
-    match linMapInplace mean std cols bias rows pre with
-    | none => some "panic"
-    | some out => some ("ok " ++ showList2 showT out)
+  let form ← formOf toks
+  let pre ← if form = .inplaceInto then argF64s2 toks "pre" else some []
+  some (showForm showRowsF (showList2 showT) rows
+    (predictForm (linMapModel mean std cols bias) form rows pre))
 
 /-- pre-order tree: `L<label>` | `S<feature>:<hex threshold>` followed by the two subtrees -/
 def parseTree : Nat → List String → Option (Tree Float Nat × List String)
@@ -143,22 +173,45 @@ def handleTree (toks : List String) : Option String := do
   let ts := t.splitOn ","
   match parseTree (ts.length + 1) ts with
   | some (tree, []) =>
-    let res ← match arg toks "pre" with
-      | none => some (treeBatch tree rows)
-      | some _ => (argNats toks "pre").map fun pre => treeInplace tree rows pre
-    match res with
-    | none => some "panic"
-    | some l => some ("ok " ++ showList toString l)
+    let form ← formOf toks
+    let pre ← if form = .inplaceInto then argNats toks "pre" else some []
+    some (showForm showRowsF (showList toString) rows (predictForm (treeModel tree 0) form rows pre))
   | _ => none
 
 def handleIso (toks : List String) : Option String := do
   let reg ← argF64s toks "reg"; let resp ← argF64s toks "resp"; let rows ← argF64s2 toks "rows"
-  let res ← match arg toks "pre" with
-    | none => some (isoBatch reg resp rows)
-    | some _ => (argF64s toks "pre").map fun pre => isoInplace reg resp rows pre
-  match res with
+  let form ← formOf toks
+  let pre ← if form = .inplaceInto then argF64s toks "pre" else some []
+  some (showForm showRowsF (showList showT) rows (predictForm (isoModel reg resp) form rows pre))
+
+/-- score-table family (multinomial logistic `x·W + b`, GMM responsibilities): `scores` is the `n × k`
+sample-major matrix the real model computes; the model reads it as the class-major table
+`tableBatch` is about (class `c`'s score vector over the whole batch = column `c`) and answers the
+first maximal class per row — a row with several exactly maximal classes is written as their set -/
+def handleTable (toks : List String) : Option String := do
+  let sc ← argF64s2 toks "scores"
+  let k ← argNat toks "k"
+  if sc.any (·.length ≠ k) then none
+  let rows := List.range sc.length
+  let scores : List (List Nat → List Float) :=
+    (List.range k).map fun c => fun rs => rs.filterMap fun i => (sc[i]?).bind (·[c]?)
+  match tableBatch scores rows with
   | none => some "panic"
-  | some l => some ("ok " ++ showList showF64c l)
+  | some l =>
+    if l.length = sc.length then
+      some ("ok " ++ ",".intercalate ((sc.zip l).map fun (r, i) =>
+        let mx := r.foldl (fun m x => if m < x then x else m) (-(1.0 / 0.0))
+        tieCell (tiedIdx r mx) i))
+    else some ("ok " ++ showList toString l)
+
+/-- threshold family (binary logistic `p >= threshold`, SVM `decision >= 0`): `dec` = the decision values
+the real model computes for the batch -/
+def handleThresh (toks : List String) : Option String := do
+  let dec ← argF64s toks "dec"
+  let thr ← argF64 toks "thr"
+  let rows := List.range dec.length
+  some ("ok " ++ showList toString
+    (threshBatch (fun (rs : List Nat) => rs.filterMap (dec[·]?)) thr rows))
 
 def handle (toks : List String) : String :=
   let r := match toks with
@@ -171,6 +224,9 @@ def handle (toks : List String) : String :=
     | "linmap" :: rest => handleLinmap rest
     | "tree" :: rest => handleTree rest
     | "iso" :: rest => handleIso rest
+    | "plattw" :: rest => handlePlattW rest
+    | "table" :: rest => handleTable rest
+    | "thresh" :: rest => handleThresh rest
     | _ => none
   r.getD "bad-op"
 
